@@ -3,6 +3,8 @@ from __future__ import annotations
 
 import ast
 
+import numpy as np
+
 from ..domains import FLIP, PAULIS, Event, Ratio, Sym
 from ..interp import (NOT_HANDLED, TOP, BoundMethod, Closure, Env, Ext, Hooks, Interp, Obj, guard, site_of, truth)
 from ..model import AnalysisError
@@ -120,6 +122,96 @@ class _Rng:
         return f'rng:{self.name}'
 
 
+class _ScriptRng:
+    """A generator whose uniform variates are scripted (bounded evaluation of samplers that do not go through
+    fast_choice)."""
+
+    def __init__(self, values, name='caller'):
+        self.values, self.pos, self.name = list(values), 0, name
+
+    def _next(self, n=None):
+        if n is None:
+            v = self.values[self.pos]
+            self.pos += 1
+            return v
+        out = np.array(self.values[self.pos:self.pos + int(n)], dtype=float)
+        if len(out) != int(n):
+            raise IndexError('script exhausted')
+        self.pos += int(n)
+        return out
+
+    def pqv_getattr(self, name):
+        if name == 'random':
+            class _C:
+                def pqv_call(_s, *a, **k):
+                    size = a[0] if a else k.get('size')
+                    return self._next(size)
+            return _C()
+        return TOP
+
+
+def _r073_scripted(ctx: Ctx, m, ci, mi, fn, site, given: bool) -> None:
+    """generate() without fast_choice: evaluated on three qubits with different channels and scripted variates; the
+    letters must be those of the inverse CDF in the order I, X, Y, Z (u < cumulative sum)."""
+    from ..symnp import call_numpy
+    dists = np.array([[0.7, 0.1, 0.15, 0.05], [0.25, 0.25, 0.25, 0.25], [0.0, 0.5, 0.0, 0.5]])
+    scripts = [[0.05, 0.05, 0.05], [0.69999, 0.3, 0.49999], [0.7, 0.5, 0.5], [0.8, 0.74, 0.9999], [0.97, 0.76, 0.2],
+               [0.9499, 0.2499, 0.0], [0.95, 0.25, 0.75]]
+    bits = {'I': (0, 0), 'X': (1, 0), 'Y': (1, 1), 'Z': (0, 1)}
+    bad = None
+    for script in scripts:
+        rngs = []
+
+        class H(Hooks):
+            def attr(self, it, obj, name, node):
+                if isinstance(obj, Sym) and obj.name == 'code' and name == 'n':
+                    return 3
+                return NOT_HANDLED
+
+            def call(self, it, func, args, kwargs, node, env):
+                if isinstance(func, BoundMethod) and func.closure.fn.name == 'probability_distribution':
+                    return tuple(np.array(dists[:, j]) for j in range(4))
+                if isinstance(func, Ext) and func.name == 'numpy.random.default_rng':
+                    r = _ScriptRng(script, 'fresh default_rng()')
+                    rngs.append(r)
+                    return r
+                if isinstance(func, Ext) and func.name.startswith('numpy'):
+                    r = call_numpy(func, args, kwargs)
+                    return TOP if r is NOT_HANDLED else r
+                return NOT_HANDLED
+        it = Interp(m, H())
+        rng = _ScriptRng(script) if given else None
+        outs = guard('R07.3', mi, fn)(lambda: it.explore(lambda: it.call_closure(
+            Closure(fn, mi, ci), [Sym('code'), Sym('rate')], {'rng': rng}, fn, self_obj=Obj(ci, 'error_model'))))
+        if len(outs) != 1 or outs[0].kind != 'return' or not isinstance(outs[0].value, np.ndarray) \
+                or outs[0].value.dtype == object:
+            raise AnalysisError('R07.3', site, f'generate (scripted variates {script}): not evaluated: {outs!r}')
+        got = [int(x) for x in outs[0].value.tolist()]
+        letters = []
+        for q, u in enumerate(script):
+            cum = 0.0
+            letter = 'Z'
+            for L, p_ in zip('IXYZ', dists[q]):
+                cum += p_
+                if u < cum:
+                    letter = L
+                    break
+            letters.append(letter)
+        want = [bits[L][0] for L in letters] + [bits[L][1] for L in letters]
+        used = (rng if given else (rngs[0] if rngs else None))
+        if got != want:
+            bad = f'variates {script}: returns {got}, the inverse CDF in the order I,X,Y,Z gives {letters} = {want}'
+            break
+        if used is None or used.pos != 3:
+            bad = f'variates {script}: {0 if used is None else used.pos} variates consumed from {"the generator supplied" if given else "a fresh default_rng()"} for 3 qubits'
+            break
+    ctx.ob('R07.3', site, f'generate: letter P drawn with probability of event {{P}}; rng threading '
+                          f'({"rng supplied" if given else "rng=None"})', bad is None, bad or '',
+           key=f'PauliErrorModel.generate|draws[{given}]', facts='scripted evaluation (7 variate triples, 3 channels)')
+    ctx.ob('R07.3', site, f'generate returns the BSF of the drawn letters ({"rng" if given else "no rng"})', bad is None, bad or '',
+           key=f'PauliErrorModel.generate|bsf[{given}]')
+
+
 def _r073(ctx: Ctx) -> None:
     m = ctx.model
     ci = m.cls('PauliErrorModel')
@@ -127,7 +219,12 @@ def _r073(ctx: Ctx) -> None:
     fn = ci.methods.get('generate')
     ctx.need(fn is not None, 'R07.3', site_of(mi, ci.node), 'PauliErrorModel.generate not found')
     site = site_of(mi, fn)
+    uses_fast_choice = any(isinstance(n, ast.Call) and isinstance(n.func, ast.Name) and n.func.id == 'fast_choice'
+                           for n in ast.walk(fn))
     for given in (True, False):
+        if not uses_fast_choice:
+            _r073_scripted(ctx, m, ci, mi, fn, site, given)
+            continue
         rec = []
 
         class H(Hooks):
